@@ -25,7 +25,7 @@ METHOD_OPTS = ['nox_method', 'hc_method', 'co_method', 'pmvol_method', 'pmnvol_m
 DEFAULTS = {k: v[0] for k, v in OPTION_AXES.items()}
 
 
-def make_traj(fuel_mass, fuel_flow, altitude, tas, n_climb, n_descent):
+def make_traj(fuel_mass, fuel_flow, altitude, tas, n_climb, n_descent, unset_phases=False):
     from AEIC.trajectories import Trajectory
 
     n = len(fuel_mass)
@@ -43,9 +43,12 @@ def make_traj(fuel_mass, fuel_flow, altitude, tas, n_climb, n_descent):
     t.true_airspeed = np.asarray(tas, float)
     t.starting_mass = float(fuel_mass[0]) + 40000.0
     t.total_fuel_mass = float(fuel_mass[0])
-    t.n_climb = int(n_climb)
-    t.n_descent = int(n_descent)
-    t.n_cruise = int(n - n_climb - n_descent)
+    if not unset_phases:
+        t.n_climb = int(n_climb)
+        t.n_descent = int(n_descent)
+        t.n_cruise = int(n - n_climb - n_descent)
+    # unset_phases: a synthetic trajectory whose phase counts were never assigned (the declared defaults, 0,
+    # apply: the whole trajectory counts as cruise)
     return t
 
 
